@@ -263,9 +263,8 @@ def part_b(ck, exe_model):
                 if v.startswith("#"):
                     okfields.append((si, k, v))
                 else:
-                    for fl in ("", "depsunknown"):
-                        reqs.append(fl + "\t" + esc(prefix + "s%d.%s" % (si, g.LET[k])))
-                        meta.append((hi, "field s%d.%s%s" % (si, g.LET[k], " (H4)" if fl else ""), expect_line(v)))
+                    reqs.append("\t" + esc(prefix + "s%d.%s" % (si, g.LET[k])))
+                    meta.append((hi, "field s%d.%s" % (si, g.LET[k]), expect_line(v)))
         # one program reading every field predicted to have a value, operands and results alike, in a
         # generated order (operands may be forced before or after the merges that use them)
         order = rng.shuffle(list(range(len(steps))))
